@@ -8,3 +8,6 @@ mod chrono_facts;
 
 #[cfg(kani)]
 mod linalg_swaps;
+
+#[cfg(kani)]
+mod chrono_weekday;
